@@ -50,17 +50,30 @@ def build_pool(seed, tier, registered):
     # twins: same query under another reference / culture / options — the shape that exposes a memo keyed too narrowly
     out = {t['key']: t for t in chosen}
     twins = []
+    NUMBERISH = ['Number', 'Ordinal', 'Percent', 'Age', 'Currency', 'Dimension', 'Temperature']
+    reg_set = {kind: {c for (mt, c) in registered[kind]} for kind in registered}
+    work = []
     for t in list(chosen):
-        if dec.choice('twin?', 3) != 0:
-            continue
-        k = dec.choice('twin-kind', 3)
+        if t['kind'] in NUMBERISH:
+            work.append((t, 3))          # every number-ish query is also asked of another model of the same culture
+        if dec.choice('twin?', 2) == 0:
+            work.append((t, dec.choice('twin-kind', 4)))
+    for t, k in work:
         tw = dict(t)
+        tw.pop('twins', None)
         if t['kind'] == 'DateTime' and k == 0:
             from datetime import timedelta
             r = lib.parse_reference(t['ref']) + timedelta(days=[1, 7, 31, 366, 4000][dec.choice('dref', 5)], hours=dec.choice('hr', 24))
             tw['ref'] = r.strftime('%Y-%m-%dT%H:%M:%S')
         elif t['kind'] == 'DateTime' and k == 1:
             tw['opt'] = [o for o in (0, 2, 4) if o != t['opt']][dec.choice('dopt', 2)]
+        elif k == 3 and (t['kind'] in NUMBERISH or t['kind'] == 'DateTime'):
+            # same query, same culture, ANOTHER MODEL: extractors of different models share sub-extractors
+            kinds = [x for x in NUMBERISH if x != t['kind'] and t['culture'] in reg_set.get(x, ())]
+            if not kinds:
+                continue
+            tw['kind'] = kinds[dec.choice('dkind', len(kinds))]
+            tw['opt'] = 0
         else:
             cults = [c for (mt, c) in registered[t['kind']] if c != t['culture']]
             if not cults:
@@ -71,7 +84,9 @@ def build_pool(seed, tier, registered):
         if tw['key'] not in out:
             out[tw['key']] = tw
             twins.append(tw['key'])
+        if tw['key'] != t['key']:
             t.setdefault('twins', []).append(tw['key'])
+            out[tw['key']].setdefault('twins', []).append(t['key'])
     pool = sorted(out.values(), key=lambda x: x['key'])
     return pool
 
@@ -242,7 +257,10 @@ def gen_plan(prop, run_seed, tier, ctx):
             t = ts[dec.choice('t', len(ts))]
             tset.append(t)
             for tw in pool[t].get('twins', []):
-                if dec.choice('use-twin', 2):
+                twt = pool[tw]
+                if twt['kind'] == 'DateTime' and ctx.get('dt_focus') and (twt['culture'], twt['opt']) not in ctx['dt_focus']:
+                    continue        # a date-time model outside this batch's focus costs seconds to build
+                if dec.choice('use-twin', 3):
                     tset.append(tw)
     has_dt = any(g[0] == 'DateTime' for g in focus)
     cold = False
